@@ -31,6 +31,29 @@ class BucketSpec:
         self.what, self.k, self.l = what, k, l
 
     def query(self):
+        from engine.smt import symexec as S
+        try:
+            return self._query()
+        except S.Unsupported as e:
+            # the current source uses a construct the translator cannot encode: the solver cannot decide.  A reproduced
+            # disagreement with the specification on a fixed grid is still a violation; none found => harness error.
+            import itertools
+            nan = float('nan')
+            specials = ['income', 'INCOME', 'Transfer', 'investment', 'InVestment']
+            alike = ['incomes', 'income-tax', 'xincome', 'reinvestment', 'transferwise', ' transfer', 'food', '']
+            lists = [None, []] + [[t] for t in specials + alike] + [list(p) for p in itertools.permutations(['income', 'transfer', 'investment'], 2)]
+            lists += [[a, 'food'] for a in specials] + [['food', a] for a in alike]
+            for a in (-2.5, -0.0, 0.0, 3.0, nan):
+                for t in lists:
+                    if self.what == 'flows':
+                        continue
+                    if not self(amount=a, tags=t):
+                        return {'status': 'REFUTED', 'args': {'amount': a, 'tags': t}, 'solver_queries': 0, 'solver_time_s': 0.0, 'paths': 0,
+                                'message': 'translator: %s; disagreement with the specification found on the fallback grid' % e,
+                                'extra': {'translator_unsupported': str(e), 'decided_by': 'fallback grid (not the solver)'}}
+            raise
+
+    def _query(self):
         import z3
         from engine.smt import symexec as S
         py = S.PyModule(PY)
